@@ -50,6 +50,6 @@ def step_strategy(runner: Runner):
 
 
 STREAMS = {
-    "history": Stream("history", machine=(config_strategy, step_strategy, Runner), quick=1200, thorough=40000, shards_quick=16, shards_thorough=16,
+    "history": Stream("history", machine=(config_strategy, step_strategy, Runner), quick=1200, thorough=10000, shards_quick=16, shards_thorough=16,
                       max_steps=12, max_steps_thorough=30),
 }
